@@ -514,7 +514,9 @@ def expected_names(F, model, default_fmt, names, where):
                     raise Violation("{}: {} label{} = {!r}, the label format gives {!r}".format(
                         where, ref.describe(), idx, own_label, want))
             if want is None:
-                want = got            # unlabelled single variable: any string
+                # a single variable created without a label has no name of its own: like every variable outside the
+                # named groups it gets "a standard variable name as defined by default_label_format" (all_variable_labels)
+                want = default_fmt.format(v)
             what = "the label of index {} of {}".format(idx, ref.describe())
         else:
             want = default_fmt.format(v)
